@@ -6,7 +6,8 @@
 // SUM, MIN, MAX, AVG, PERCENTILE, BOOL_AND, BOOL_OR, with GROUP BY / WHERE / HAVING); STDDEV / VARIANCE on values whose
 // sums are exactly representable, compared to 9 decimals; every cut of every sequence of up to 4 lines into two parts for
 // COUNT / SUM / MIN / MAX per group.
-// Also: 11 large INT values (neighbours of 2^53, 10^8, 10^9, the 64-bit ends) in all multisets of 2..3 with MIN / MAX /
+// Also: the table produced after every line (multisets of up to 3 lines, 5 statements) ends the same for every permutation; every cut
+// also as two input files, the first with and without a final line feed; 11 large INT values (neighbours of 2^53, 10^8, 10^9, the 64-bit ends) in all multisets of 2..3 with MIN / MAX /
 // COUNT(DISTINCT) / STDDEV / VARIANCE / PERCENTILE compared exactly; 12 values whose squares need more than 53 bits in 5 orders.
 include!("verif_grid_common.rs");
 include!("verif_grid_qcommon.rs");
@@ -49,6 +50,18 @@ fn check_permutations(st: &str, multiset: &[&str], tolerant: bool) -> Result<(),
     Ok(())
 }
 
+/// the table on the screen when a table is produced after every line (what follow mode does): the same for every permutation,
+/// and the table a single run over the multiset prints
+fn check_permutations_refreshed(st: &str, multiset: &[&str]) -> Result<(), String> {
+    let reference = match q(T, st, multiset) { Outcome::Lines(l, _) => l, other => return Err(format!("{} over {:?}: {:?}", st, multiset, other)) };
+    for p in permutations(multiset) {
+        let shown = incremental(T, st, &p).map_err(|e| format!("{} over {:?} line by line: {}", st, p, e))?;
+        let last = shown.into_iter().flatten().last().unwrap_or_default();
+        if last != reference { return Err(format!("{} with the table produced after every line of {:?} ends with {:?}; one run over the same lines prints {:?}", st, p, last, reference)); }
+    }
+    Ok(())
+}
+
 /// key -> (count, sum, min, max) from the printed table of COMBINE
 const COMBINE: &str = "SELECT k, COUNT(*) AS n, COUNT(v) AS c, SUM(v) AS s, MIN(v) AS lo, MAX(v) AS hi FROM t GROUP BY k";
 fn table(rows: &[String]) -> std::collections::BTreeMap<String, (i64, i64, Option<i64>, Option<i64>, Option<i64>)> {
@@ -67,6 +80,17 @@ fn check_cut(input: &[&str], cut: usize) -> Result<(), String> {
         let e = combined.entry(k.clone()).or_insert((0, 0, None, None, None));
         let opt = |p: Option<i64>, q: Option<i64>, f: fn(i64, i64) -> i64| match (p, q) { (Some(x), Some(y)) => Some(f(x, y)), (x, None) => x, (None, y) => y };
         *e = (e.0 + y.0, e.1 + y.1, opt(e.2, y.2, |x, y| x + y), opt(e.3, y.3, std::cmp::min), opt(e.4, y.4, std::cmp::max));
+    }
+    // the two parts given as two input files, the first one with and without a line feed after its last line
+    if cut > 0 && cut < input.len() {
+        for terminated in [true, false] {
+            let mut first = join_lines(&input[..cut]);
+            if !terminated { first.pop(); }
+            match run_opts(T, COMBINE, &[first, join_lines(&input[cut..])], json_opts()) {
+                Outcome::Lines(l, _) => if table(&l) != whole { return Err(format!("{} over the files {:?} (last line {}) and {:?} gives {:?}; over one file with the same lines {:?}", COMBINE, &input[..cut], if terminated { "terminated" } else { "without line feed" }, &input[cut..], table(&l), whole)); },
+                other => return Err(format!("{:?}", other)),
+            }
+        }
     }
     if whole == combined { Ok(()) } else { Err(format!("{} over {:?} gives {:?}; the key-wise combination of the results over {:?} and {:?} is {:?}", COMBINE, input, whole, &input[..cut], &input[cut..], combined)) }
 }
@@ -98,6 +122,12 @@ fn verif_grid() {
             if ids.len() == 4 && (mi + si) % 2 != 0 { continue; }
             let m = multiset.clone();
             g.case(&format!("perm-m{}-s{}", mi, si), move || check_permutations(st, &m, false));
+        }
+        if ids.len() <= 3 {
+            for si in [0usize, 1, 2, 3, 6] {
+                let (m, st) = (multiset.clone(), statements[si]);
+                g.case(&format!("perm-refreshed-m{}-s{}", mi, si), move || check_permutations_refreshed(st, &m));
+            }
         }
         if ids.len() <= 3 || mi % 3 == 0 {
             let m = multiset.clone();
